@@ -1,10 +1,12 @@
 package props
 
 import (
+	"fmt"
 	"strings"
 
 	"github.com/alecthomas/participle/v2"
 	"github.com/alecthomas/participle/v2/ebnf"
+	"github.com/alecthomas/participle/v2/lexer"
 
 	"verifharness/mon"
 )
@@ -26,7 +28,89 @@ type c14Root struct {
 func (c14A) isC14U() {}
 func (c14B) isC14U() {}
 
+// Names outside ASCII (Go allows them for types; lexer rules may carry them
+// too) and anonymous struct types as root and as sub-productions.
+
+type Größe struct {
+	Wert string `@Wörter`
+	Maß  *Maße  `@@?`
+}
+type Maße struct {
+	E string `"[" @Wörter "]"`
+}
+
+type c14AnonHolder struct {
+	Names *struct {
+		N []string `@Ident+`
+	} `@@? ":"`
+	V string `@String`
+}
+
+func c14Shapes(c *mon.Child) {
+	wl := lexer.MustSimple([]lexer.SimpleRule{{Name: "Wörter", Pattern: `[a-zäöüß]+`}, {Name: "Punct", Pattern: `[\[\]]`}, {Name: "ws", Pattern: `\s+`}})
+	cases := []struct {
+		desc  string
+		build func() (interface{ String() string }, error)
+		want  []string // production names that must be defined
+	}{
+		{"production and token names outside ASCII", func() (interface{ String() string }, error) {
+			return participle.Build[Größe](participle.Lexer(wl))
+		}, []string{"Größe", "Maße"}},
+		{"anonymous struct type as the root", func() (interface{ String() string }, error) {
+			return participle.Build[struct {
+				A string   `@Ident`
+				B []string `( "," @Ident )*`
+			}]()
+		}, nil},
+		{"optional reference to an anonymous struct whose body is a repetition", func() (interface{ String() string }, error) {
+			return participle.Build[c14AnonHolder]()
+		}, []string{"C14AnonHolder"}},
+	}
+	for i, tc := range cases {
+		key := fmt.Sprintf("static-shape%d", i)
+		if !c.Want(key) {
+			continue
+		}
+		c.Begin(key, tc.desc)
+		c.Eval(1)
+		p, err := tc.build()
+		if err != nil {
+			c.Violation("", key, "static grammar does not build ("+tc.desc+"): "+err.Error(), nil)
+			c.End(key)
+			continue
+		}
+		var out string
+		if pn, pv, _ := mon.Guard(func() { out = p.String() }); pn {
+			c.Violation("", key, "Parser.String() panicked ("+tc.desc+"): "+pv, nil)
+			c.End(key)
+			continue
+		}
+		e, err := ebnf.ParseString(out)
+		if err != nil {
+			c.Violation("", key, fmt.Sprintf("Parser.String() is not valid EBNF (%s): %v | output: %q", tc.desc, err, out), map[string]interface{}{"ebnf": out})
+			c.End(key)
+			continue
+		}
+		defined := map[string]int{}
+		for _, pr := range e.Productions {
+			defined[pr.Production]++
+		}
+		for _, w := range tc.want {
+			if defined[w] != 1 {
+				c.Violation("", key, fmt.Sprintf("production %s is defined %d times in Parser.String() (%s) | output: %q", w, defined[w], tc.desc, out), map[string]interface{}{"ebnf": out})
+			}
+		}
+		if again, err := ebnf.ParseString(e.String()); err != nil || again.String() != e.String() {
+			c.Violation("", key, fmt.Sprintf("printing the parsed EBNF does not give the same tree back (%s): %v | output: %q", tc.desc, err, out), map[string]interface{}{"ebnf": out})
+		}
+		c.Feature("static_shapes_printed_and_reparsed")
+		c.Nontrivial("static-shape:" + tc.desc)
+		c.End(key)
+	}
+}
+
 func c14Static(c *mon.Child) {
+	c14Shapes(c)
 	key := "static-two-parsers"
 	if !c.Want(key) {
 		return
